@@ -49,6 +49,12 @@ Section Monad.
     | x :: r => bind (f x) (fun _ => for_each r f)
     end.
   Definition when (b : bool) (m : M unit) : M unit := if b then m else ret tt.
+
+  (* outputs of the two most common prefixes *)
+  Lemma outputs_bind_get {A} (f : P -> M A) p : snd (fst (bind get f p)) = snd (fst (f p p)).
+  Proof. unfold bind, get. destruct (f p p) as [[p2 o2] r2]. reflexivity. Qed.
+  Lemma outputs_bind_emit {A} (x : O) (m : M A) p : snd (fst (bind (emit x) (fun _ => m) p)) = x :: snd (fst (m p)).
+  Proof. unfold bind, emit. destruct (m p) as [[p2 o2] r2]. reflexivity. Qed.
 End Monad.
 
 Arguments Ok {E A} a.
